@@ -13,6 +13,7 @@ use util::*;
 mod c20;
 mod batch;
 mod c14;
+mod c06;
 
 thread_local! {
     pub static LAST_PANIC: std::cell::RefCell<String> = Default::default();
@@ -72,6 +73,7 @@ fn main() {
             "batch" => batch::batch(r),
             "c05_weight_sum" => batch::c05_weight_sum(r),
             "c14" => c14::c14(r),
+            "c06_mutations" => c06::c06_mutations(r),
             "c14_votes" => c14::c14_votes(r),
             "c13_unlock" => c14::c13_unlock(r),
             other => json!({"error": format!("unknown kind {other}")}),
